@@ -262,6 +262,30 @@ func runCheck(repo, prop, tier string, rest []string) int {
 		violations = append(violations, o.Name)
 		exit = 1
 	}
+	// generator-decided obligations must not silently disappear (a deleted reset makes a field look like
+	// configuration): every name recorded for the unchanged tree in ledger/<prop>.direct must still be generated
+	if exp, err := os.ReadFile(filepath.Join(verifDir, "ledger", prop+".direct")); err == nil {
+		have := map[string]bool{}
+		for _, d := range c.direct {
+			have[d.Name] = true
+		}
+		for _, name := range strings.Split(strings.TrimSpace(string(exp)), "\n") {
+			name = strings.TrimSpace(name)
+			if name == "" || strings.HasPrefix(name, "#") || have[name] {
+				continue
+			}
+			c.direct = append(c.direct, &directResult{Name: name, OK: false, Detail: "this obligation is generated on the unchanged tree (ledger/" + prop + ".direct) but is no longer generated: the code it speaks about changed so that the generator does not recognise it any more (e.g. the only reset of a scratch field was removed)"})
+		}
+	}
+	if os.Getenv("VERIF_WRITE_LEDGER") != "" {
+		var names []string
+		for _, d := range c.direct {
+			names = append(names, d.Name)
+		}
+		sort.Strings(names)
+		os.MkdirAll(filepath.Join(verifDir, "ledger"), 0o755)
+		os.WriteFile(filepath.Join(verifDir, "ledger", prop+".direct"), []byte(strings.Join(names, "\n")+"\n"), 0o644)
+	}
 	for _, d := range c.direct {
 		total++
 		isKnown := false
